@@ -348,6 +348,11 @@ func (acl *ACL) AuthorizeConnection(conn *net.Conn, cmd []string, command intern
 		return errors.New("user must be authenticated")
 	}
 
+	// A user that has been disabled after the connection authenticated can no longer act.
+	if !connection.User.Enabled {
+		return fmt.Errorf("user %s is disabled", connection.User.Username)
+	}
+
 	var notAllowed []string
 
 	// 2. Check if all categories are in IncludedCategories
